@@ -83,19 +83,16 @@ inline RunResult runApi(const SolverCfg& cfg, int gridFile, const std::string& f
         scribbleStack(pattern);
         s->solve();
         r.its = s->numberOfIterations();
-        // the factor is documented for a solve that iterated; with zero iterations nothing was reduced
-        if (r.its > 0)
-            r.rho = s->meanResidualReductionFactor();
-        if (r.its >= 1 || cfg.max_its >= 1) {
-            // at least one pass of the iteration loop happened (documented use of exactError*)
-            if (cfg.max_its >= 1) {
-                auto a = s->exactErrorWeightedEuclidean();
-                auto b = s->exactErrorInfinity();
-                if (a.has_value() && b.has_value()) {
-                    r.hasErr = true;
-                    r.e2     = *a;
-                    r.einf   = *b;
-                }
+        // every statistic is read after every completed solve, whatever the options were (C20: "every statistic the API
+        // reports afterwards ... is a well-defined function of that solve"); an optional without a value is a valid report
+        r.rho = s->meanResidualReductionFactor();
+        {
+            auto a = s->exactErrorWeightedEuclidean();
+            auto b = s->exactErrorInfinity();
+            if (a.has_value() && b.has_value()) {
+                r.hasErr = true;
+                r.e2     = *a;
+                r.einf   = *b;
             }
         }
         r.sol = s->solution();
